@@ -14,18 +14,27 @@ def jobs(tier):
     Ms = [0, 1, 3] if tier == 'quick' else [0, 1, 2, 3]
     def add(op, L, M=0, K=0):
         J.append(Job('string %s L=%d M=%d k=%d' % (op, L, M, K), 'B', 'harness/cpp/string.cpp', 'harness_s_' + op, srcs=SRCS,
-                     pdefs={'IR2C_P0': L, 'IR2C_P1': M, 'IR2C_P2': K, 'IR2C_P3': 0, 'IR2C_P4': 0, 'IR2C_P5': 0}, unwind=2 * max(L, 4) + M + 12, mode='func', family='string/' + op, object_bits=10,
-                     timeout=(150 if tier == 'quick' else 900)))
+                     pdefs={'IR2C_P0': L, 'IR2C_P1': M, 'IR2C_P2': K, 'IR2C_P3': 0, 'IR2C_P4': 0, 'IR2C_P5': 0}, unwind=2 * max(L, 4) + M + 24, mode='func', family='string/' + op, object_bits=10,
+                     timeout=(150 if tier == 'quick' else 900), native_defs={'VERIF_STUB_ATOULL_HASH': 1}, ir2c_flags=['--split-struct', 'struct.muscle::String::LongStringData'], extra_clang=['-fno-inline'], stubs=['_ZNK6muscle6String18IsCharInLocalArrayEPKc'],
+                     models=('models/base.def', 'models/string.def')))
     for L in Ls:
         for op in ('set', 'appendchar', 'appendself', 'reverse', 'flatten', 'indexof'): add(op, L)
         for M in Ms:
-            for op in ('appendstr',): add(op, L, M)     # 'appendcstr' and 'prepend' take a const char *: inconclusive (DESIGN 10.3-17), not part of the claim
+            for op in ('appendcstr', 'appendstr', 'prepend'): add(op, L, M)
         for M in sorted(set([0, 1, CAP, CAP + 1])):
             for op in ('swap', 'assign', 'compare'): add(op, L, M)
         for M in (0, 1, 2):
             add('startsends', L, M)
         for K in sorted(set(k for k in (0, 1, L - 1, L, L + 1, CAP, CAP + 1) if k >= 0)):
             for op in ('truncate', 'truncatechars'): add(op, L, 0, K)
+        for K in sorted(set(k for k in (0, 1, L - 1, L) if 0 <= k <= L)):
+            for op in ('appendownptr', 'setownptr'):
+                # s += (s.Cstr()+k) with growth goes through String(const char *, len) -> SetCstr's scanning loop: the length becomes a function of symbolic content
+                # and the job exhausts 12 GB (measured); only the no-growth cases are part of the claim
+                if op == 'appendownptr' and L + (L - K) > CAP: continue
+                add(op, L, 0, K)
+        for M in (0, 3, CAP + 2):
+            for K in sorted(set([0, 2, M, M + 1, 0xffffffff])): add('setcstrmax', L, M, K)
         for K in (0, 1): add('clear', L, 0, K)
         for K in sorted(set([0, CAP - 1, CAP, CAP + 1, L, L + 1])): add('ensurebuf', L, 0, K)
         for (b, e) in sorted(set([(0, L), (0, 1), (1, L), (L, L), (0, L + 3), (1, 0), (max(0, L - 1), L)])):
@@ -38,8 +47,8 @@ META = {
             'every content byte (1..255) is a solver variable; the job proves result bytes, length, NUL termination and Length() < GetNumAllocatedBytes() against a plain char-array '
             'model, including the aliasing cases (operand is the receiver itself or a pointer into its buffer). Non-trivial iff the witness is reachable.',
     'bounds': 'receiver lengths {0,1,14,15,16} (quick) / {0,1,2,13..17,20} (thorough) around the inline capacity 15; operands of 0-3 bytes (or 15/16 for whole-String operands)',
-    'outside': 'operations whose result length depends on content (Replace with different lengths, Trimmed, WithoutPrefix/Suffix), Arg()/numeric formatting and parsing, UTF-8 helpers, lengths above the bound',
-    'assumptions': ['malloc/realloc never fail', 'clang-14 -O1 lowering + ir2c translation, validated per run by native differential execution'],
+    'outside': 's += (pointer into s) when the result no longer fits the current buffer; LastIndexOf(char) (its loop steps a pointer one before the buffer, which CBMC cannot model); operations whose result length depends on content (Replace with different lengths, Trimmed, WithoutPrefix/Suffix), Arg()/numeric formatting and parsing, UTF-8 helpers, lengths above the bound',
+    'assumptions': ['malloc/realloc never fail', 'String::IsCharInLocalArray is cut to an equivalent model (same-object test + offsets instead of ordering two pointers; models/string.def)', 'built with -fno-inline so that the cut applies; ir2c --split-struct keeps each byte of the inline/heap union its own cell', 'clang-14 -O1 lowering + ir2c translation, validated per run by native differential execution'],
 }
 
 
